@@ -445,4 +445,13 @@ Theorem cp_concrete_fit_predict solve reg Xtr ytr so R nrm small n_iter w0 st (X
         (fsumn Op (nth 0 (shape (fst (r_blocks st))) 0)
                (fun r => fmul Op (tget Op (fst (r_blocks st)) [r]) (cp_coeff Op (snd (r_blocks st)) (J ++ o) r)))).
 Proof. apply cp_fit_predict. Qed.
+
+Theorem tucker_concrete_fit_predict solve reg Xtr ytr nrm small n_iter w0 st (X : tensor F) n sx :
+  reg_fit (tk_concrete_sweep Op solve reg Xtr ytr) (tucker_rebuild Op) nrm small n_iter w0 = Ok st ->
+  wf X -> shape X = n :: sx -> sx <> [] -> factor_rows (snd (r_blocks st)) = sx -> 0 < n ->
+  exists P, rbind (r_vec st) (fun v => predict_tucker Op v X) = Ok P /\ shape P = [n] /\
+    forall i, i < n ->
+      tget Op P [i] = fsum_idx Op sx (fun J => fmul Op (tget Op X (i :: J))
+        (fsum_idx Op (shape (fst (r_blocks st))) (fun K => fmul Op (tget Op (fst (r_blocks st)) K) (tk_coeff Op (snd (r_blocks st)) J K)))).
+Proof. apply tucker_fit_predict. Qed.
 End ConcreteCp.
